@@ -19,7 +19,7 @@ from harness.core import canon, err_kind
 
 PID = 'C19'
 TITLE = 'Re-batching conserves rows, order and column alignment'
-LEAN_MODULES = ['MlModel.Properties.C19']
+LEAN_MODULES = ['MlModel.Properties.C19', 'MlModel.Witness.C19']
 TRUSTED = [
     'TreeFn._iterate is modelled as two re-batchers around one call per batch (treeFn); tree key selection / output '
     'assembly (_get_inputs/_get_outputs/_normalize_outputs) is exercised by the via-cases but not modelled',
@@ -210,10 +210,62 @@ def gen_via(ctx):
     yield make_via('assign', sizes, b, fb, 2, ['list', 'array'], 'sum', ['list'])
 
 
+def branches(case):
+  """Which arms of the flush/carry logic a case exercises (computed from the sizes alone)."""
+  t, out = case['target'], set()
+  if case.get('malform'):
+    return {'malformed:' + case['malform']}
+  if t == 0:
+    return {'identity'}
+  if not case['batches']:
+    return {'empty-stream'}
+  m = 0
+  for b in case['batches']:
+    m += len(b[0]['r']) if b else 0
+    if m == 0:
+      out.add('zero-rows-buffered')
+    elif m < t:
+      out.add('below-target:no-flush')
+    else:
+      out.add('flush:multi-slice' if m > t else 'flush:one-slice')
+      out.add('flush:exact-fit' if m % t == 0 else 'flush:carry-remainder')
+      m %= t
+  if m == 0:
+    out.add('exhausted:nothing-buffered')
+  else:
+    out.add('exhausted:remainder-padded' if case.get('pad') is not None else 'exhausted:remainder')
+  return out
+
+
+REQUIRED_BRANCHES = ['identity', 'empty-stream', 'zero-rows-buffered', 'below-target:no-flush', 'flush:one-slice',
+                     'flush:multi-slice', 'flush:exact-fit', 'flush:carry-remainder', 'exhausted:nothing-buffered',
+                     'exhausted:remainder', 'exhausted:remainder-padded', 'malformed:ragged', 'malformed:cols',
+                     'malformed:other', 'malformed:zerocols']
+
+
 def gen_cases(ctx):
-  yield from ctx.corpus()
-  yield from gen_direct(ctx)
-  yield from gen_via(ctx)
+  def counted(it):
+    for case in it:
+      via = case.get('via', 'direct')
+      ctx.count('entry_point', via)
+      ctx.count('input_batches', min(len(case['batches']), 10))
+      for br in branches(case):
+        ctx.count('branch:' + ('direct' if via == 'direct' else 'pipeline'), br)
+      yield case
+  yield from counted(ctx.corpus())
+  yield from counted(gen_direct(ctx))
+  yield from counted(gen_via(ctx))
+
+
+def extra(ctx):
+  """Coverage promise of the generator: every arm of the re-batching logic is exercised (else: infrastructure failure)."""
+  from harness.core import InfraError
+  missing = [b for b in REQUIRED_BRANCHES if b not in ctx.hist.get('branch:direct', {})]
+  missing += ['pipeline:' + b for b in ('flush:multi-slice', 'flush:carry-remainder', 'exhausted:remainder', 'malformed:ragged')
+              if b not in ctx.hist.get('branch:pipeline', {})]
+  missing += ['entry:' + v for v in ('apply', 'select', 'batch', 'assign') if v not in ctx.hist.get('entry_point', {})]
+  if missing:
+    raise InfraError(f'generator missed promised branches: {missing}')
 
 
 class _Counted:
